@@ -37,6 +37,7 @@ def check(run):
         run.guard("C12.5.url-scanner-tables", cfg, lambda: rule_scanner(run, F, cfg))
         run.guard("C12.5.url-scanner-tables", cfg + "/brackets", lambda: rule_brackets(run, F, cfg))
         run.guard("C12.5.url-scanner-tables", cfg + "/host-normalisation", lambda: rule_host_normalised(run, F, cfg))
+        run.guard("C12.6.host-span", cfg, lambda: rule_host_span(run, F, cfg))
 
 
 def rule_scheme(run, F, cfg):
@@ -310,3 +311,45 @@ def rule_host_normalised(run, F, cfg):
            "tabs and newlines inside the host are removed: either Input::next skips them or the has_ignored_chars path "
            "collects the scanned slice through a filter that rejects exactly \\t, \\n, \\r (otherwise "
            "`http://exa\\tmple.com/` keeps the tab and loses the last character of the host)", site=f.loc(0), config=cfg)
+
+
+def rule_host_span(run, F, cfg):
+    """The reported hostname is serialization[host_start..host_end]: host_start is the length of the serialization
+    AFTER the userinfo has been written and BEFORE the host is, host_end what parse_host returns. And the registrable
+    domain of a host the public-suffix list rejects (IP literal, odd labels) is the whole host, never the empty string."""
+    f = F.fn("url_parser::parser::Parser::after_double_slash")
+    run.touched(f)
+    ok = False
+    detail = ""
+    for b, i, st in f.statements():
+        if st["k"] == "assign" and st["rv"]["k"] == "agg" and str(st["rv"].get("adt", "")).endswith("::Hostname"):
+            d = dict(zip(st["rv"]["fields"], st["rv"]["ops"]))
+            hs, he = f.expr_operand(d["host_start"]), f.expr_operand(d["host_end"])
+            ui = [x for x, t in f.calls(r"Parser::parse_userinfo$")]
+            ph = [x for x, t in f.calls(r"Parser::parse_host$")]
+            lens = [x for x, t in f.calls(r"^std::string::String::len$") if f.expr_operand(t["args"][0]).endswith(".serialization")]
+            ok = hs == "std::string::String::len(arg:self.serialization)" and he.startswith("url_parser::parser::Parser::parse_host(") \
+                and he.endswith("@Continue.0.0") and len(lens) == 1 and bool(ui) and bool(ph) \
+                and all(f.dominates(u, lens[0]) for u in ui) and all(f.dominates(lens[0], p_) for p_ in ph)
+            detail = f"host_start = {hs}; host_end = {he[-60:]}; len at bb{lens}, userinfo at bb{ui}, host at bb{ph}"
+    run.ob("C12.6.host-span", "host-start-between-userinfo-and-host", ok,
+           "after_double_slash takes host_start = serialization.len() after parse_userinfo and before parse_host, and "
+           "host_end from parse_host (credentials never become part of the hostname)", site=f.loc(0), config=cfg, detail=detail)
+    g = [x for n, x in F.fns.items() if n.endswith("DefaultResolver as url_parser::ResolvesDomain>::get_host_domain")]
+    if not g:
+        return   # configuration without the embedded resolver
+    g = g[0]
+    rows = []
+    for b, i, st in g.statements():
+        if st["k"] == "assign" and st["rv"]["k"] == "agg" and st["rv"].get("agg") == "tuple" and len(st["rv"]["ops"]) == 2:
+            c = dominating_conditions(g, b)
+            empty = c.get("core::str::is_empty(arg:host)")
+            psl = [v for k, v in c.items() if "parse_domain_name(" in k and k.startswith("discr(")]
+            rows.append((empty, psl[0] if psl else None, tuple(g.expr_operand(o) for o in st["rv"]["ops"])))
+    err_row = [r for r in rows if r[0] == 0 and r[1] == 1]
+    ok_row = [r for r in rows if r[0] == 0 and r[1] == 0]
+    run.ob("C12.6.host-span", "domain-of-unlisted-host-is-the-host",
+           len(err_row) == 1 and err_row[0][2] == ("0", "core::str::len(arg:host)")
+           and len(ok_row) == 1 and ok_row[0][2][1] == "core::str::len(arg:host)" and ok_row[0][2][0].startswith("(core::str::len(arg:host) SubWithOverflow "),
+           "get_host_domain: a host the public-suffix parser rejects is its own registrable domain (0, host.len()); "
+           f"otherwise (host.len() - domain.len(), host.len()) (rows: {rows})", site=g.loc(0), config=cfg)
